@@ -487,6 +487,29 @@ def chunk_last(ctx, rr):
                     if not ok:
                         rr.fail(ctx.finding('R-CHUNK-LAST', u, y, 'the is-last flag `%s` is not `index == count - 1`: for some lengths (exact multiples of the chunk size) the '
                                             'last chunk is not marked last, so the last tail block keeps HAS_TAIL and reads run into the next node' % ast.unparse(flag)))
+    # the number of chunks is ceil(len / size): never a chunk beyond the end of the string
+    for u in chunk_gens:
+        for a in P.own(u, ast.Assign):
+            if isinstance(a.targets[0], ast.Name) and any(isinstance(f, ast.For) and isinstance(f.iter, ast.Call) and isinstance(f.iter.func, ast.Name) and f.iter.func.id == 'range'
+                                                          and f.iter.args and ast.unparse(f.iter.args[0]) == a.targets[0].id for f in P.own(u, ast.For)):
+                txt = ast.unparse(a.value).replace(' ', '')
+                ps = u.params
+                good = False
+                if len(ps) >= 2:
+                    size, st_ = ps[0], ps[1]
+                    forms = ['int(math.ceil(len(%s)/float(%s)))' % (st_, size), 'math.ceil(len(%s)/%s)' % (st_, size), 'int(math.ceil(len(%s)/%s))' % (st_, size),
+                             '(len(%s)+%s-1)//%s' % (st_, size, size), '-(-len(%s)//%s)' % (st_, size)]
+                    wrong = ['len(%s)//%s+1' % (st_, size), 'len(%s)//%s' % (st_, size), '1+len(%s)//%s' % (st_, size), 'int(len(%s)/%s)+1' % (st_, size)]
+                    if txt in forms:
+                        good = True
+                    elif txt in wrong:
+                        good = False
+                    else:
+                        raise AnalysisError('R-CHUNK-LAST: chunk count expression `%s` of %s not recognised' % (ast.unparse(a.value), u.qual))
+                rr.ob(ctx.where(u, a), 'chunk count `%s` is ceil(len/size)' % ast.unparse(a.value), ok=good)
+                if not good:
+                    rr.fail(ctx.finding('R-CHUNK-LAST', u, a, 'chunk count `%s` is not ceil(len/size): for a length that is an exact multiple of the chunk size a surplus '
+                                        '(empty) chunk is produced and one block too many is written' % ast.unparse(a.value)))
     # the tail writer must consume such a generator
     node_write = P.method(TRIE_NODE, 'write')
     gens = [t for c in P.own(node_write, ast.Call) for t in P.targets(c) if t.is_gen]
